@@ -245,6 +245,8 @@ pub fn gen_replay(seed: u64, focus_arg: &str) -> Replay {
         _ if long => rng.range(120, 400),
         _ => rng.range(40, 120),
     } as usize;
+    // a run with a kernel-half recursive index pays two signals per table access: short histories
+    let len = if matches!(config.view, View::Recursive { r } if r >= 256) { len.min(3 + len % 5) } else { len };
     let mut sizes: Vec<Size> = Size::ALL.iter().cloned().filter(|_| rng.chance(75)).collect();
     if sizes.is_empty() {
         sizes.push(*rng.pick(&Size::ALL));
